@@ -420,11 +420,14 @@ package oras
 //@ func ExtendedCopyGraph$1
 //@   requires [wf] region == nil || region.limiter != nil
 //@   requires [task-holds-permit] region != nil ==> !region.ended
+//@   requires [captured:established-at-the-Go-call-of-ExtendedCopyGraph] tracker != nil && proxy != nil
 //@   ensures [C03,C04:permit-held-again-on-success] result == nil && region != nil ==> !region.ended
 //@   call copyGraph requires [C02,C03,C04:roots-share-tracker-proxy-limiter] args.proxy == proxy && args.limiter == limiter && args.tracker == tracker && args.src == src && args.dst == dst
+//@   call copyGraph requires [C02,C03,C04:tracker-given-not-per-root] args.tracker != nil && args.proxy != nil
 //@   call copyGraph requires [C03:copies-the-root] args.root == root && args.opts == opts.CopyGraphOptions
 //@   call copyGraph requires [C02,C03,C04:permit-released-during-copy] region == nil || region.ended
 //@
 //@ func ExtendedCopyGraph
 //@   call findRoots requires [C03:roots-of-the-given-node] args.node == node && args.storage == src
 //@   call Go requires [C03:every-root-dispatched] args.items == roots
+//@   call Go requires [C02,C03,C04:closure-captures-shared-state] tracker != nil && proxy != nil
